@@ -68,6 +68,9 @@ def skeletons(nf):
        ('path', ['any', 'any']), {('d2', 2): nf}, max_steps=60)
     sk('recdyn', [(F('r', F('f', X)), call('r', X)), (F('t', X), conj(call('r', X), call('r', F('f', X))))],
        ('t', ['any']), {('r', 1): nf}, max_steps=80)
+    sk('swap', [(F('swap', X, Y), conj(eq(X, Y), eq(Y, X))), (F('swap', X, Y), conj(eq(F('f', X, Y), F('f', Y, X)), call('d1', X))),
+                (F('sym', V('A'), V('B'), V('B'), V('A')), TRUE), (F('r', X, Y), conj(call('swap', X, Y), call('sym', X, Y, X, Y)))],
+       ('r', ['any', 'any']), {('d1', 1): nf})
     sk('alias', [(F('r', X), conj(eq(X, Y), call('d1', Y))), (F('r', X), conj(call('same', X, Y), call('d1', Y), eq(X, C(1)))),
                  (F('same', Z, Z), TRUE)],
        ('r', ['any']), {('d1', 1): nf})
